@@ -1,6 +1,7 @@
 (* C16 — encoders write exactly the reported bytes and refuse documented-invalid input.  Property theorems only. *)
 Require Import Base Crc Bitfield Headers Encode Decode Process Ops Spec Judge.
 Require Import HeaderForms IanaForm PecFacts EncodeFacts DecodeFacts Hist StepsSimple StepsEncode.
+Require Import Readable.
 Open Scope N_scope.
 
 (* (1) in every well-formed history, for every encoder call with arguments of the documented shapes: given a
@@ -28,3 +29,34 @@ Proof. vm_compute. reflexivity. Qed.
 
 Print Assumptions C16_oracle_holds_on_model.
 Print Assumptions C16_encoders_refine_spec.
+
+(* ---------- stated directly about an encoder call (no oracle to read) ----------
+   c is a context of configuration g at any point of a history; h / id / a / ls name the encoder and its arguments
+   (of the documented shapes); w is what that call does to a buffer. *)
+
+(* (3) a successful encode into buf reports n = 10 + |body| and leaves exactly the specified packet in the first n
+   bytes — which therefore do not depend on buf — followed by buf's own bytes from n on *)
+Theorem C16_exact_bytes_and_untouched_tail : forall ovf g c h id a ls w buf out n,
+  wf_cfg g -> cinv g c -> args_okb h id a ls = true ->
+  encode_call ovf c h id a ls = Some w -> w buf = (out, Val (Some n)) ->
+  exists mt body, model_message h id a ls (c_eid_resp c) = Some (mt, body) /\
+    n = (10 + length body)%nat /\
+    out = spec_packet (g_addr g) (enc_dest h id a) mt body ++ skipn n buf.
+Proof. exact exact_bytes_and_untouched_tail. Qed.
+
+(* (4) a buffer shorter than the packet never yields a success *)
+Theorem C16_short_buffer_never_succeeds : forall ovf g c h id a ls w buf mt body,
+  wf_cfg g -> cinv g c -> args_okb h id a ls = true ->
+  encode_call ovf c h id a ls = Some w ->
+  model_message h id a ls (c_eid_resp c) = Some (mt, body) -> (length buf < 10 + length body)%nat ->
+  forall m out, w buf <> (out, Val (Some m)).
+Proof. exact short_buffer_never_succeeds. Qed.
+
+(* (5) a refusal (Err(())) leaves the buffer exactly as it was — whatever the arguments and the buffer's length *)
+Theorem C16_refusal_leaves_buffer : forall ovf c h id a ls w buf out,
+  encode_call ovf c h id a ls = Some w -> w buf = (out, Val None) -> out = buf.
+Proof. exact refusal_leaves_buffer. Qed.
+
+Print Assumptions C16_exact_bytes_and_untouched_tail.
+Print Assumptions C16_short_buffer_never_succeeds.
+Print Assumptions C16_refusal_leaves_buffer.
